@@ -531,7 +531,7 @@ func oracle(w *out.W, r result) {
 			return
 		}
 		if strings.HasPrefix(o.outcome, "other") || o.outcome == "checksum" {
-			bad("setup", fmt.Sprintf("apply run %d ended unexpectedly (%s)", i+1, o.outcome))
+			bad("unexpected-error", fmt.Sprintf("apply run %d ended unexpectedly (%s)", i+1, o.outcome))
 			return
 		}
 	}
@@ -624,16 +624,28 @@ func oracle(w *out.W, r result) {
 			bad("wrong-tail", fmt.Sprintf("resuming run with a storage fault executed %v, want a prefix of %v", r2.delta, wantTail(kp)))
 			return
 		}
-		if h.mode2 == "file" && len(r2.delta) != 0 {
-			bad("wrong-tail", fmt.Sprintf("failed run in tx-mode file left statements %v behind", r2.delta))
-			return
-		}
 		row2, has2 := r2.row("1")
+		// tx-mode file: one transaction per file. Either the failing file is the first one (everything is
+		// rolled back: no statement left behind, revision untouched) or the first file was committed as a
+		// whole (its complete tail ran, its revision is complete) and the following file was rolled back.
+		file1Committed := false
+		if h.mode2 == "file" {
+			file1Committed = h.second && has2 && row2.applied == len(h.new) && row2.total == len(h.new) && row2.nhashes == 0 &&
+				eqInts(r2.delta, h.new[kp:])
+			if !file1Committed && len(r2.delta) != 0 {
+				bad("wrong-tail", fmt.Sprintf("failed run in tx-mode file left statements %v behind", r2.delta))
+				return
+			}
+			if _, has22 := r2.row("2"); has22 {
+				bad("history-touched", fmt.Sprintf("failed run in tx-mode file left a revision of the rolled-back file: [%s]", r2.table()))
+				return
+			}
+		}
 		if has0 && (!has2 || row2.applied < kp || row2.applied > kp+len(r2.delta)) {
 			bad("revision-replaced", fmt.Sprintf("storage fault during the resuming run: revision went from [%s] to [%s] with %v executed", r1.table(), r2.table(), r2.delta))
 			return
 		}
-		if h.mode2 == "file" && has0 && row2.sig != row0.sig {
+		if h.mode2 == "file" && !file1Committed && has0 && row2.sig != row0.sig {
 			bad("history-touched", fmt.Sprintf("failed run in tx-mode file changed the revision: %q -> %q", row0.sig, row2.sig))
 			return
 		}
